@@ -432,8 +432,9 @@ class AnswerMonitor : public Monitor {
   const Scenario& sc;
   std::string prefix;
   bool entitlementOnly;   // C03 (c): only judge that ebusd writes nothing it is not entitled to
-  enum Ph { WAIT_SYN, IDLE, M, EXPECT_ACK, ACK_ECHO, RESP_SEND, RESP_ECHO, RESP_ACK, PASSIVE };
-  Ph ph = WAIT_SYN;
+  enum Ph { WAIT_SYN, IDLE, M, EXPECT_ACK, ACK_ECHO, RESP_SEND, RESP_ECHO, RESP_ACK, PASSIVE, OWN };
+  Ph ph = WAIT_SYN;  // OWN: an own request of ebusd is on the bus (scenarios with a history of own exchanges): C02's subject,
+                     // nothing is judged here until the SYN that ends it
   Bytes part;
   uint8_t crc = 0;
   bool esc = false, crcPos = false, good = false;
@@ -453,7 +454,7 @@ class AnswerMonitor : public Monitor {
     failed = true;
   }
   static std::string hx(uint8_t v) { char b[4]; snprintf(b, sizeof(b), "%02x", v); return b; }
-  const char* phName() const { static const char* n[] = {"wait-syn", "idle", "receiving", "expect-ack", "ack-echo", "response-send", "response-echo", "response-ack", "passive"}; return n[ph]; }
+  const char* phName() const { static const char* n[] = {"wait-syn", "idle", "receiving", "expect-ack", "ack-echo", "response-send", "response-echo", "response-ack", "passive", "own-exchange"}; return n[ph]; }
   void resetPart() { part.clear(); crc = 0; esc = false; crcPos = false; good = false; }
 
   // reference answer table lookup (from the statement): all registered answers matching with the longest ID
@@ -500,6 +501,13 @@ class AnswerMonitor : public Monitor {
         cands = keep; lastW = v; ph = RESP_ECHO;
         return;
       }
+      case OWN:
+        return;
+      case IDLE:
+        // the arbitration address of an own request directly behind a SYN (only in scenarios that queue own requests)
+        if (v == sc.own && !sc.reqs.empty() && !sc.readOnly) { ph = OWN; return; }
+        fail(std::string("unexpected-write/") + phName(), "symbol " + hx(v) + " written while " + phName());
+        return;
       default:
         fail(std::string("unexpected-write/") + phName(), "symbol " + hx(v) + " written while " + phName() + (part.empty() ? "" : " (telegram so far " + ref::hex(part) + ")"));
         return;
@@ -509,6 +517,11 @@ class AnswerMonitor : public Monitor {
   void onDeliver(uint8_t v, int kind, bool) override {
     if (failed) return;
     bool syn = v == ref::SYN && kind == 0;
+    if (ph == OWN) {
+      if (syn) { ph = IDLE; resetPart(); attemptM = 1; dontCare = false; }
+      return;
+    }
+    if (kind == 1 && !sc.reqs.empty()) { ph = OWN; return; }  // enhanced: the adapter reports the won arbitration of an own request
     if ((ph == ACK_ECHO || ph == RESP_ECHO) && v != lastW) {
       ph = PASSIVE;
       if (syn) { ph = IDLE; resetPart(); attemptM = 1; dontCare = false; }
